@@ -1155,7 +1155,7 @@ Definition ex_expr : expr :=
         EVar "a"; EInt 3].
 
 Definition ex_expr' : expr :=
-  ESum [EVar "v4"; EVar "x";
+  ESum [EVar "v3"; EVar "x";
         EProd [EVar "v0"; EVar "x"];
         ECall "f" [EVar "v1"; EVar "x"; EVar "v2"]].
 
@@ -1163,8 +1163,10 @@ Definition ex_asg : list (string * expr) :=
   [("v0", EProd [EVar "b"; EVar "a"; ESum [EVar "a"; EInt 2]]);
    ("v1", EProd [EVar "a"; EVar "b"]);
    ("v2", ECall "g" [EPow (EVar "a") (EInt 2)]);
-   ("v3", EQuot (ENot (EVar "a")) (ESum [EVar "b"; EInt 1]));
-   ("v4", ESum [EVar "v3"; EVar "a"; EInt 3])].
+   ("v3", ESum [EQuot (ENot (EVar "a")) (ESum [EVar "b"; EInt 1]); EVar "a"; EInt 3])].
+
+Example ex_collapse_exact : collapse true fresh_v ["x"] ex_expr = Ok (ex_expr', ex_asg, 4).
+Proof. vm_compute. reflexivity. Qed.
 
 Example ex_collapse_run :
   exists e' asg n, collapse true fresh_v ["x"] ex_expr = Ok (e', asg, n) /\ n = 4 /\ List.length asg = 4.
